@@ -114,7 +114,7 @@ def build_model(spec) -> Model:
 
     def met(mid):
         if mid not in mets:
-            mets[mid] = Metabolite(mid, compartment="c")
+            mets[mid] = Metabolite(mid, compartment="e" if mid.endswith("_e") else "c")
         return mets[mid]
     rx = []
     with warnings.catch_warnings():
